@@ -3,7 +3,7 @@ REPO ?= /repo
 B    ?= build
 F    ?= plain
 GUARD = -DHEIKOSTAMER_LIBTMCG_VERIF
-COMMON = -g -w -pthread -DHAVE_CONFIG_H -I$(REPO) -I$(REPO)/src $(GUARD)
+COMMON = -g -w -pthread -DHAVE_CONFIG_H -I$(REPO) -I$(REPO)/src -I/repo $(GUARD)
 FLAGS_plain = -O2
 FLAGS_asan  = -O1 -fsanitize=address,undefined -fno-sanitize-recover=undefined -fno-omit-frame-pointer
 FLAGS_tiny  = -O2 -DTMCG_KEY_NIZK_STAGE1=4 -DTMCG_KEY_NIZK_STAGE2=8 -DTMCG_KEY_NIZK_STAGE3=8
